@@ -248,4 +248,1235 @@ theorem Good.elog_lt {st : AS} (h : Good st) : ∀ x ∈ st.elog, x.1 < st.kinds
 
 theorem labs_length (st : AS) : st.labs.length = st.elog.length := by simp [AS.labs, AS.elog]
 
+theorem getD_append_left' (vars more : List VarH) (k : Nat) (hk : k < vars.length) :
+    (vars ++ more).getD k dflt = vars.getD k dflt := by
+  simp [List.getD_eq_getElem?_getD, List.getElem?_append_left hk]
+
+theorem elog_addVars {st : AS} (h : Good st) (ts : List Nat) : (st.addVars ts).elog = st.elog := by
+  simp only [AS.elog, AS.addVars]
+  apply List.map_congr_left
+  intro x hx
+  rw [getD_append_left' _ _ _ (h.inScope x hx)]
+
+theorem labs_addVars {st : AS} (h : Good st) (ts : List Nat) : (st.addVars ts).labs = st.labs := by
+  simp only [AS.labs, AS.addVars]
+  apply List.map_congr_left
+  intro x hx
+  rw [getD_append_left' _ _ _ (h.inScope x hx)]
+
+/-- `|ts|` calls of `Var::new` -/
+theorem foldl_varNew_concH (kinds : List Kind) (elog : List (Nat × Bool)) (labs s t : List Nat)
+    (ts : List Nat) (acc : List VarH) (hlog : ∀ x ∈ elog, x.1 < kinds.length) :
+    ts.foldl (fun (acc : LF × List VarH) t =>
+        let (f', v) := varNew acc.1 t
+        (f', acc.2 ++ [v])) (⟨s, t, concH kinds elog labs⟩, acc) =
+      (⟨s, t, concH (kinds ++ List.replicate ts.length (99, none)) elog labs⟩,
+       acc ++ List.zipWith VarH.mk (List.range' kinds.length ts.length) ts) := by
+  induction ts generalizing kinds acc with
+  | nil => simp
+  | cons a ts ih =>
+    rw [List.foldl_cons, varNew_concH _ _ _ _ _ _ hlog]
+    simp only
+    rw [ih]
+    · simp [List.replicate_succ, List.range'_succ]
+    · intro x hx
+      have := hlog x hx
+      simp only [List.length_append, List.length_singleton]; omega
+
+theorem foldl_varNew (st : AS) (h : Good st) (s t : List Nat) (ts : List Nat) (acc : List VarH) :
+    ts.foldl (fun (acc : LF × List VarH) t =>
+        let (f', v) := varNew acc.1 t
+        (f', acc.2 ++ [v])) (concF st s t, acc) =
+      (concF (st.addVars ts) s t,
+       acc ++ List.zipWith VarH.mk (List.range' st.kinds.length ts.length) ts) := by
+  unfold concF
+  rw [foldl_varNew_concH _ _ _ _ _ _ _ h.elog_lt, elog_addVars h, labs_addVars h]
+  rfl
+
+/-- one `new_source` / `new_target` per listed variable -/
+theorem foldlM_attach_src (ks : List Nat) (st : AS) (h : Good st) (s t : List Nat) (acc : List Nat)
+    (hks : ∀ k ∈ ks, k < st.vars.length) :
+    (ks.map (fun k => st.vars.getD k dflt)).foldlM (fun (acc : LF × List Nat) v => do
+        let (f', n) ← varNewSource acc.1 v
+        pure (f', acc.2 ++ [n])) (concF st s t, acc) =
+      .ok (concF (st.attach ks true) s t, acc ++ List.range' st.log.length ks.length) := by
+  induction ks generalizing st acc with
+  | nil => simp [AS.attach]
+  | cons k ks ih =>
+    have hk : k < st.vars.length := hks k (by simp)
+    have hv := h.isVar (st.vars.getD k dflt) (by
+      rw [List.getD_eq_getElem?_getD, List.getElem?_eq_getElem hk]; simp)
+    rw [List.map_cons, List.foldlM_cons]
+    have h2 : concF (st.attach [k] true) s t =
+        ⟨s, t, concH st.kinds (st.elog ++ [((st.vars.getD k dflt).edgeId, true)])
+          (st.labs ++ [(st.vars.getD k dflt).label])⟩ := by
+      simp [concF, AS.attach, AS.elog, AS.labs]
+    have h1 : varNewSource (concF st s t) (st.vars.getD k dflt) =
+        .ok (concF (st.attach [k] true) s t, st.elog.length) := by
+      rw [h2]
+      exact varNewSource_concH st.kinds st.elog st.labs s t (st.vars.getD k dflt).edgeId
+        (st.vars.getD k dflt).label 99 hv (labs_length st)
+    rw [h1]
+    show (Res.ok (concF (st.attach [k] true) s t, acc ++ [st.elog.length]) >>= _) = _
+    rw [Res.ok_bind]
+    have h3 := ih (st.attach [k] true) (h.attach [k] true (by simpa using hk)) (acc ++ [st.elog.length])
+      (fun k' hk' => hks k' (by simp [hk']))
+    have h4 : (st.attach [k] true).vars = st.vars := rfl
+    rw [h4] at h3
+    rw [h3]
+    simp [AS.attach, AS.elog, List.range'_succ]
+
+theorem foldlM_attach_tgt (ks : List Nat) (st : AS) (h : Good st) (s t : List Nat) (acc : List Nat)
+    (hks : ∀ k ∈ ks, k < st.vars.length) :
+    (ks.map (fun k => st.vars.getD k dflt)).foldlM (fun (acc : LF × List Nat) v => do
+        let (f', n) ← varNewTarget acc.1 v
+        pure (f', acc.2 ++ [n])) (concF st s t, acc) =
+      .ok (concF (st.attach ks false) s t, acc ++ List.range' st.log.length ks.length) := by
+  induction ks generalizing st acc with
+  | nil => simp [AS.attach]
+  | cons k ks ih =>
+    have hk : k < st.vars.length := hks k (by simp)
+    have hv := h.isVar (st.vars.getD k dflt) (by
+      rw [List.getD_eq_getElem?_getD, List.getElem?_eq_getElem hk]; simp)
+    rw [List.map_cons, List.foldlM_cons]
+    have h2 : concF (st.attach [k] false) s t =
+        ⟨s, t, concH st.kinds (st.elog ++ [((st.vars.getD k dflt).edgeId, false)])
+          (st.labs ++ [(st.vars.getD k dflt).label])⟩ := by
+      simp [concF, AS.attach, AS.elog, AS.labs]
+    have h1 : varNewTarget (concF st s t) (st.vars.getD k dflt) =
+        .ok (concF (st.attach [k] false) s t, st.elog.length) := by
+      rw [h2]
+      exact varNewTarget_concH st.kinds st.elog st.labs s t (st.vars.getD k dflt).edgeId
+        (st.vars.getD k dflt).label 99 hv (labs_length st)
+    rw [h1]
+    show (Res.ok (concF (st.attach [k] false) s t, acc ++ [st.elog.length]) >>= _) = _
+    rw [Res.ok_bind]
+    have h3 := ih (st.attach [k] false) (h.attach [k] false (by simpa using hk)) (acc ++ [st.elog.length])
+      (fun k' hk' => hks k' (by simp [hk']))
+    have h4 : (st.attach [k] false).vars = st.vars := rfl
+    rw [h4] at h3
+    rw [h3]
+    simp [AS.attach, AS.elog, List.range'_succ]
+
+/-- symbolic execution of one instruction -/
+def symStep (st : AS) : VarIns → AS
+  | .op label args rts =>
+    (((st.attach args false).addVars rts).attach (List.range' st.vars.length rts.length) true).addOp label
+      ⟨List.range' st.log.length args.length, List.range' (st.log.length + args.length) rts.length⟩
+
+theorem eq_map_getD_append (vars more : List VarH) :
+    more = (List.range' vars.length more.length).map (fun k => (vars ++ more).getD k dflt) := by
+  apply List.ext_getElem (by simp)
+  intro i h1 h2
+  simp [List.getD_eq_getElem?_getD, h1]
+
+theorem varOperation_sym (st : AS) (h : Good st) (s t : List Nat) (label : Nat) (args rts : List Nat)
+    (hargs : ∀ a ∈ args, a < st.vars.length) :
+    varOperation (concF st s t) (args.map (fun k => st.vars.getD k dflt)) rts label =
+      .ok (concF (symStep st (.op label args rts)) s t,
+           List.zipWith VarH.mk (List.range' st.kinds.length rts.length) rts) := by
+  unfold varOperation
+  rw [foldlM_attach_tgt args st h s t [] hargs]
+  rw [Res.ok_bind]
+  simp only
+  have h1 := h.attach args false hargs
+  rw [foldl_varNew _ h1 s t rts []]
+  simp only [List.nil_append]
+  have h2 := h1.addVars rts
+  have hlen : (List.zipWith VarH.mk (List.range' (st.attach args false).kinds.length rts.length) rts).length
+      = rts.length := by simp
+  have h3 := eq_map_getD_append (st.attach args false).vars
+    (List.zipWith VarH.mk (List.range' (st.attach args false).kinds.length rts.length) rts)
+  rw [hlen] at h3
+  have h4 : ((st.attach args false).addVars rts).vars = (st.attach args false).vars ++
+    List.zipWith VarH.mk (List.range' (st.attach args false).kinds.length rts.length) rts := rfl
+  rw [← h4] at h3
+  conv => lhs; arg 1; arg 3; rw [h3]
+  rw [foldlM_attach_src _ _ h2 s t []]
+  · rw [Res.ok_bind]
+    simp only [List.nil_append]
+    unfold concF
+    simp only
+    rw [newEdge_concH]
+    simp only [symStep, AS.attach, AS.addVars, AS.addOp, AS.elog, AS.labs, List.length_append,
+      List.length_map, List.length_range', Res.pure_eq]
+  · intro k hk
+    have := List.mem_range'_1.1 hk
+    simp only [AS.addVars, AS.attach, List.length_append, List.length_zipWith, List.length_range',
+      Nat.min_self] at this ⊢
+    omega
+
+def insLabel : VarIns → Nat | .op l _ _ => l
+def insArgs : VarIns → List Nat | .op _ a _ => a
+def insRts : VarIns → List Nat | .op _ _ r => r
+
+theorem symStep_vars (st : AS) (ins : VarIns) :
+    (symStep st ins).vars = st.vars ++
+      List.zipWith VarH.mk (List.range' st.kinds.length (insRts ins).length) (insRts ins) := by
+  cases ins; rfl
+
+theorem symStep_vars_length (st : AS) (ins : VarIns) :
+    (symStep st ins).vars.length = st.vars.length + (insRts ins).length := by
+  rw [symStep_vars]; simp
+
+theorem symStep_good (st : AS) (h : Good st) (ins : VarIns)
+    (hargs : ∀ a ∈ insArgs ins, a < st.vars.length) : Good (symStep st ins) := by
+  cases ins with
+  | op label args rts =>
+    have h1 := h.attach args false hargs
+    have h2 := h1.addVars rts
+    have h3 := h2.attach (List.range' st.vars.length rts.length) true (by
+      intro k hk
+      have := List.mem_range'_1.1 hk
+      simp only [AS.addVars, AS.attach, List.length_append, List.length_zipWith, List.length_range',
+        Nat.min_self] at this ⊢
+      omega)
+    apply h3.addOp
+    constructor
+    · intro v hv
+      have := List.mem_range'_1.1 hv
+      simp only [AS.addVars, AS.attach, List.length_append, List.length_map, List.length_range']
+      omega
+    · intro v hv
+      have := List.mem_range'_1.1 hv
+      simp only [AS.addVars, AS.attach, List.length_append, List.length_map, List.length_range']
+      omega
+
+theorem mapM_getVar (vars : List VarH) (args : List Nat) (h : ∀ a ∈ args, a < vars.length) :
+    args.mapM (getVar vars) = .ok (args.map (fun k => vars.getD k dflt)) := by
+  induction args with
+  | nil => rfl
+  | cons a args ih =>
+    have ha : a < vars.length := h a (by simp)
+    rw [List.mapM_cons, ih (fun b hb => h b (by simp [hb]))]
+    simp [getVar, Res.ofOption, List.getElem?_eq_getElem ha, List.getD_eq_getElem?_getD]
+
+theorem runVarIns_sym (st : AS) (h : Good st) (s t : List Nat) (ins : VarIns)
+    (hargs : ∀ a ∈ insArgs ins, a < st.vars.length) :
+    runVarIns (concF st s t) st.vars ins = .ok (concF (symStep st ins) s t, (symStep st ins).vars) := by
+  cases ins with
+  | op label args rts =>
+    have hargs' : ∀ a ∈ args, a < st.vars.length := hargs
+    unfold runVarIns
+    simp only
+    rw [mapM_getVar _ _ hargs', Res.ok_bind, varOperation_sym st h s t label args rts hargs, Res.ok_bind]
+    rfl
+
+def scopedFrom (nv : Nat) : List VarIns → Bool
+  | [] => true
+  | ins :: rest => (insArgs ins).all (· < nv) && scopedFrom (nv + (insRts ins).length) rest
+
+theorem foldlM_prog (rest : List VarIns) (st : AS) (h : Good st) (s t : List Nat)
+    (hs : scopedFrom st.vars.length rest = true) :
+    rest.foldlM (fun (acc : LF × List VarH) ins => runVarIns acc.1 acc.2 ins) (concF st s t, st.vars) =
+      .ok (concF (rest.foldl symStep st) s t, (rest.foldl symStep st).vars) ∧
+    Good (rest.foldl symStep st) := by
+  induction rest generalizing st with
+  | nil => exact ⟨rfl, h⟩
+  | cons ins rest ih =>
+    simp only [scopedFrom, Bool.and_eq_true, List.all_eq_true, decide_eq_true_eq] at hs
+    rw [List.foldlM_cons, List.foldl_cons]
+    simp only
+    rw [runVarIns_sym st h s t ins hs.1, Res.ok_bind]
+    apply ih _ (symStep_good st h ins hs.1)
+    rw [symStep_vars_length]; exact hs.2
+
+/-! ### the whole `build` -/
+
+def initState (nIn : Nat) : AS := AS.empty.addVars (List.replicate nIn 0)
+def progState (nIn : Nat) (prog : List VarIns) : AS := prog.foldl symStep (initState nIn)
+def finalState (nIn : Nat) (prog : List VarIns) (outs : List Nat) : AS :=
+  ((progState nIn prog).attach (List.range nIn) true).attach outs false
+
+/-- number of nodes created while running the program -/
+def progNodes (nIn : Nat) (prog : List VarIns) : Nat := (progState nIn prog).log.length
+
+/-- the term `build` returns -/
+def builtTerm (nIn : Nat) (prog : List VarIns) (outs : List Nat) : LF :=
+  concF (finalState nIn prog outs) (List.range' (progNodes nIn prog) nIn)
+    (List.range' (progNodes nIn prog + nIn) outs.length)
+
+theorem foldl_range_const {β : Type} (g : β → Nat → β) (c : Nat) (n : Nat) (init : β) :
+    (List.range n).foldl (fun acc _ => g acc c) init = (List.replicate n c).foldl g init := by
+  induction n with
+  | zero => rfl
+  | succ n ih => rw [List.range_succ, List.foldl_append, ih, List.replicate_succ', List.foldl_append]; rfl
+
+theorem foldl_symStep_vars (rest : List VarIns) (st : AS) :
+    ∃ more, (rest.foldl symStep st).vars = st.vars ++ more := by
+  induction rest generalizing st with
+  | nil => exact ⟨[], by simp⟩
+  | cons ins rest ih =>
+    obtain ⟨more, hm⟩ := ih (symStep st ins)
+    rw [List.foldl_cons, hm, symStep_vars, List.append_assoc]
+    exact ⟨_, rfl⟩
+
+theorem eq_map_getD_prefix (vs more : List VarH) :
+    vs = (List.range vs.length).map (fun k => (vs ++ more).getD k dflt) := by
+  apply List.ext_getElem (by simp)
+  intro i h1 h2
+  simp [List.getD_eq_getElem?_getD, List.getElem?_append_left h1, List.getElem?_eq_getElem h1]
+
+theorem initState_vars_length (nIn : Nat) : (initState nIn).vars.length = nIn := by
+  simp [initState, AS.addVars, AS.empty]
+
+theorem good_init (nIn : Nat) : Good (initState nIn) := good_empty.addVars _
+
+def srcStep (acc : LF × List Nat) (v : VarH) : Res (LF × List Nat) := do
+  let (f', n) ← varNewSource acc.1 v
+  pure (f', acc.2 ++ [n])
+
+def tgtStep (acc : LF × List Nat) (v : VarH) : Res (LF × List Nat) := do
+  let (f', n) ← varNewTarget acc.1 v
+  pure (f', acc.2 ++ [n])
+
+def newStep (acc : LF × List VarH) (t : Nat) : LF × List VarH :=
+  let (f', v) := varNew acc.1 t
+  (f', acc.2 ++ [v])
+
+def progStep (acc : LF × List VarH) (ins : VarIns) : Res (LF × List VarH) := runVarIns acc.1 acc.2 ins
+
+/-- `varBuildProg` with the pattern matches replaced by projections and the loop bodies named -/
+theorem varBuildProg_eq (nIn : Nat) (prog : List VarIns) (outs : List Nat) :
+    varBuildProg nIn prog outs =
+      ((prog.foldlM progStep ((List.range nIn).foldl (fun acc _ => newStep acc 0) ((LOHG.empty : LF), []))) >>=
+        fun q => (outs.mapM (getVar q.2)) >>=
+        fun outv => (((List.range nIn).foldl (fun acc _ => newStep acc 0) ((LOHG.empty : LF), [])).2.foldlM
+            srcStep (q.1, [])) >>=
+        fun r => (outv.foldlM tgtStep (({ r.1 with sources := r.2 } : LF), [])) >>=
+        fun r2 => Res.ok ({ r2.1 with targets := r2.2 } : LF)) := rfl
+
+theorem build_sym (nIn : Nat) (prog : List VarIns) (outs : List Nat)
+    (hs : scopedFrom nIn prog = true) (ho : ∀ o ∈ outs, o < (progState nIn prog).vars.length) :
+    varBuildProg nIn prog outs = .ok (builtTerm nIn prog outs) ∧ Good (finalState nIn prog outs) := by
+  have e1 : (List.range nIn).foldl (fun acc _ => newStep acc 0) ((LOHG.empty : LF), []) =
+      (concF (initState nIn) [] [], (initState nIn).vars) := by
+    refine (foldl_range_const newStep 0 nIn _).trans ?_
+    rw [← concF_empty]
+    refine (foldl_varNew _ good_empty [] [] _ []).trans ?_
+    simp [initState, AS.addVars, AS.empty]
+  have hs' : scopedFrom (initState nIn).vars.length prog = true := by
+    rw [initState_vars_length]; exact hs
+  obtain ⟨e2, g2⟩ := foldlM_prog prog (initState nIn) (good_init nIn) [] [] hs'
+  replace e2 : prog.foldlM progStep (concF (initState nIn) [] [], (initState nIn).vars) =
+      .ok (concF (progState nIn prog) [] [], (progState nIn prog).vars) := e2
+  obtain ⟨more, hm⟩ := foldl_symStep_vars prog (initState nIn)
+  have e3 : (initState nIn).vars =
+      (List.range nIn).map (fun k => (progState nIn prog).vars.getD k dflt) := by
+    have := eq_map_getD_prefix (initState nIn).vars more
+    rw [initState_vars_length, ← hm] at this
+    exact this
+  have hin : ∀ k ∈ List.range nIn, k < (progState nIn prog).vars.length := by
+    intro k hk
+    have := List.mem_range.1 hk
+    unfold progState
+    rw [hm, List.length_append, initState_vars_length]; omega
+  have g3 := g2.attach (List.range nIn) true hin
+  have g4 := g3.attach outs false ho
+  refine ⟨?_, g4⟩
+  have e4 : (initState nIn).vars.foldlM srcStep (concF (progState nIn prog) [] [], []) =
+      .ok (concF ((progState nIn prog).attach (List.range nIn) true) [] [],
+        [] ++ List.range' (progState nIn prog).log.length (List.range nIn).length) := by
+    rw [e3]
+    exact foldlM_attach_src (List.range nIn) (progState nIn prog) g2 [] [] [] hin
+  have e5 : ∀ s, (outs.map (fun k => (progState nIn prog).vars.getD k dflt)).foldlM tgtStep
+        (concF ((progState nIn prog).attach (List.range nIn) true) s [], []) =
+      .ok (concF (finalState nIn prog outs) s [],
+        [] ++ List.range' ((progState nIn prog).attach (List.range nIn) true).log.length outs.length) :=
+    fun s => foldlM_attach_tgt outs ((progState nIn prog).attach (List.range nIn) true) g3 s [] [] ho
+  rw [varBuildProg_eq, e1, e2, Res.ok_bind]
+  simp only
+  rw [mapM_getVar _ _ ho, Res.ok_bind, e4, Res.ok_bind]
+  have e6 : ∀ s, ({ concF ((progState nIn prog).attach (List.range nIn) true) [] [] with sources := s } : LF) =
+      concF ((progState nIn prog).attach (List.range nIn) true) s [] := fun _ => rfl
+  simp only [e6]
+  rw [e5, Res.ok_bind]
+  simp [builtTerm, concF, progNodes, AS.attach]
+
+/-! ## Part B: closed-form vocabulary -/
+
+/-- number of variables created by the instructions -/
+def numRes (prog : List VarIns) : Nat := (prog.map (fun i => (insRts i).length)).sum
+/-- total number of variables: the inputs, then every result of every instruction -/
+def numVars (nIn : Nat) (prog : List VarIns) : Nat := nIn + numRes prog
+/-- number of nodes created by the instructions: one per argument use and one per result -/
+def numProgNodes (prog : List VarIns) : Nat :=
+  (prog.map (fun i => (insArgs i).length + (insRts i).length)).sum
+/-- number of edges created by the instructions: one per result variable and one operator edge -/
+def numProgEdges (prog : List VarIns) : Nat := (prog.map (fun i => (insRts i).length + 1)).sum
+
+/-- label of variable `k` -/
+def varLabels (nIn : Nat) (prog : List VarIns) : List Nat := List.replicate nIn 0 ++ prog.flatMap insRts
+
+/-- the edge labels, in creation order -/
+def edgeLabels (nIn : Nat) (prog : List VarIns) : List Nat :=
+  List.replicate nIn 99 ++
+    prog.flatMap (fun ins => List.replicate (insRts ins).length 99 ++ [insLabel ins])
+
+/-- edge ids of the result variables of a program whose first edge gets id `eb` -/
+def progVarEdges (eb : Nat) : List VarIns → List Nat
+  | [] => []
+  | ins :: rest => List.range' eb (insRts ins).length ++ progVarEdges (eb + (insRts ins).length + 1) rest
+
+/-- edge id of every variable -/
+def varEdges (nIn : Nat) (prog : List VarIns) : List Nat := List.range nIn ++ progVarEdges nIn prog
+def varEdge (nIn : Nat) (prog : List VarIns) (k : Nat) : Nat := (varEdges nIn prog).getD k 0
+
+/-- edge id of the operator edge of instruction `j` -/
+def opEdge (nIn : Nat) (prog : List VarIns) (j : Nat) : Nat :=
+  nIn + numProgEdges (prog.take j) + (prog[j]?.map (fun i => (insRts i).length)).getD 0
+
+/-- first node created by instruction `j` -/
+def nodeBase (prog : List VarIns) (j : Nat) : Nat := numProgNodes (prog.take j)
+/-- first variable created by instruction `j` -/
+def varBase (nIn : Nat) (prog : List VarIns) (j : Nat) : Nat := numVars nIn (prog.take j)
+
+/-- for every node created by the program (first variable id `vb`): the variable it is attached to
+    and the side (`false`: a use, pushed on the TARGETS of the variable edge; `true`: the
+    definition, pushed on its SOURCES) -/
+def progLog (vb : Nat) : List VarIns → List (Nat × Bool)
+  | [] => []
+  | ins :: rest =>
+    (insArgs ins).map (fun k => (k, false)) ++ (List.range' vb (insRts ins).length).map (fun k => (k, true)) ++
+      progLog (vb + (insRts ins).length) rest
+
+def fullLog (nIn : Nat) (prog : List VarIns) (outs : List Nat) : List (Nat × Bool) :=
+  progLog nIn prog ++ (List.range nIn).map (fun k => (k, true)) ++ outs.map (fun k => (k, false))
+
+/-- the variable each node is attached to, in node-creation order -/
+def nodeVars (nIn : Nat) (prog : List VarIns) (outs : List Nat) : List Nat := (fullLog nIn prog outs).map (·.1)
+/-- whether the node was pushed on the SOURCES of its variable edge -/
+def nodeIsSrc (nIn : Nat) (prog : List VarIns) (outs : List Nat) : List Bool := (fullLog nIn prog outs).map (·.2)
+
+def progKinds (nb : Nat) : List VarIns → List Kind
+  | [] => []
+  | ins :: rest =>
+    List.replicate (insRts ins).length (99, none) ++
+      [(insLabel ins, some ⟨List.range' nb (insArgs ins).length,
+          List.range' (nb + (insArgs ins).length) (insRts ins).length⟩)] ++
+      progKinds (nb + (insArgs ins).length + (insRts ins).length) rest
+
+theorem foldl_symStep_eq (rest : List VarIns) (st : AS) :
+    rest.foldl symStep st =
+      ⟨st.kinds ++ progKinds st.log.length rest,
+       st.vars ++ List.zipWith VarH.mk (progVarEdges st.kinds.length rest) (rest.flatMap insRts),
+       st.log ++ progLog st.vars.length rest⟩ := by
+  induction rest generalizing st with
+  | nil => simp [progKinds, progVarEdges, progLog]
+  | cons ins rest ih =>
+    rw [List.foldl_cons, ih]
+    cases ins with
+    | op label args rts =>
+      simp [symStep, AS.attach, AS.addVars, AS.addOp, progKinds, progVarEdges, progLog, insArgs, insRts,
+        insLabel, List.zipWith_append, Nat.add_assoc]
+
+theorem numRes_cons (ins : VarIns) (rest : List VarIns) :
+    numRes (ins :: rest) = (insRts ins).length + numRes rest := by simp [numRes]
+theorem numProgNodes_cons (ins : VarIns) (rest : List VarIns) :
+    numProgNodes (ins :: rest) = (insArgs ins).length + (insRts ins).length + numProgNodes rest := by
+  simp [numProgNodes]
+theorem numProgEdges_cons (ins : VarIns) (rest : List VarIns) :
+    numProgEdges (ins :: rest) = (insRts ins).length + 1 + numProgEdges rest := by simp [numProgEdges]
+
+theorem progVarEdges_length (eb : Nat) (prog : List VarIns) : (progVarEdges eb prog).length = numRes prog := by
+  induction prog generalizing eb with
+  | nil => rfl
+  | cons ins rest ih => simp [progVarEdges, numRes_cons, ih]
+
+theorem flatMap_rts_length (prog : List VarIns) : (prog.flatMap insRts).length = numRes prog := by
+  induction prog with
+  | nil => rfl
+  | cons ins rest ih => simp [numRes_cons, ih]
+
+theorem progLog_length (vb : Nat) (prog : List VarIns) : (progLog vb prog).length = numProgNodes prog := by
+  induction prog generalizing vb with
+  | nil => rfl
+  | cons ins rest ih => simp [progLog, numProgNodes_cons, ih]; omega
+
+theorem progKinds_length (nb : Nat) (prog : List VarIns) : (progKinds nb prog).length = numProgEdges prog := by
+  induction prog generalizing nb with
+  | nil => rfl
+  | cons ins rest ih => simp [progKinds, numProgEdges_cons, ih]; omega
+
+theorem varEdges_length (nIn : Nat) (prog : List VarIns) : (varEdges nIn prog).length = numVars nIn prog := by
+  simp [varEdges, numVars, progVarEdges_length]
+
+theorem varLabels_length (nIn : Nat) (prog : List VarIns) : (varLabels nIn prog).length = numVars nIn prog := by
+  simp only [varLabels, numVars, List.length_append, List.length_replicate, flatMap_rts_length]
+
+/-- the abstract state after the program -/
+theorem progState_eq (nIn : Nat) (prog : List VarIns) :
+    progState nIn prog =
+      ⟨List.replicate nIn (99, none) ++ progKinds 0 prog,
+       List.zipWith VarH.mk (varEdges nIn prog) (varLabels nIn prog),
+       progLog nIn prog⟩ := by
+  unfold progState
+  rw [foldl_symStep_eq]
+  simp [initState, AS.addVars, AS.empty, varEdges, varLabels, List.zipWith_append, List.range_eq_range']
+
+theorem progState_vars_length (nIn : Nat) (prog : List VarIns) :
+    (progState nIn prog).vars.length = numVars nIn prog := by
+  rw [progState_eq]; simp [varEdges_length, varLabels_length]
+
+theorem progNodes_eq (nIn : Nat) (prog : List VarIns) : progNodes nIn prog = numProgNodes prog := by
+  unfold progNodes; rw [progState_eq]; simp [progLog_length]
+
+theorem zipWith_mk_getD (es ls : List Nat) (h : es.length = ls.length) (k : Nat) :
+    (List.zipWith VarH.mk es ls).getD k dflt = ⟨es.getD k 0, ls.getD k 0⟩ := by
+  simp only [List.getD_eq_getElem?_getD, List.getElem?_zipWith]
+  by_cases hk : k < es.length
+  · have hk' : k < ls.length := h ▸ hk
+    simp [List.getElem?_eq_getElem hk, List.getElem?_eq_getElem hk']
+  · have hk' : ¬ k < ls.length := h ▸ hk
+    simp [List.getElem?_eq_none (Nat.le_of_not_lt hk), List.getElem?_eq_none (Nat.le_of_not_lt hk'), dflt]
+
+/-- the handle of variable `k` -/
+theorem progState_var (nIn : Nat) (prog : List VarIns) (k : Nat) :
+    (progState nIn prog).vars.getD k dflt = ⟨varEdge nIn prog k, (varLabels nIn prog).getD k 0⟩ := by
+  rw [progState_eq]
+  exact zipWith_mk_getD _ _ (by rw [varEdges_length, varLabels_length]) k
+
+theorem finalState_eq (nIn : Nat) (prog : List VarIns) (outs : List Nat) :
+    finalState nIn prog outs =
+      ⟨List.replicate nIn (99, none) ++ progKinds 0 prog,
+       List.zipWith VarH.mk (varEdges nIn prog) (varLabels nIn prog),
+       fullLog nIn prog outs⟩ := by
+  unfold finalState
+  rw [progState_eq]
+  simp [AS.attach, fullLog]
+
+theorem finalState_vars (nIn : Nat) (prog : List VarIns) (outs : List Nat) :
+    (finalState nIn prog outs).vars = (progState nIn prog).vars := rfl
+
+theorem finalState_elog (nIn : Nat) (prog : List VarIns) (outs : List Nat) :
+    (finalState nIn prog outs).elog = (fullLog nIn prog outs).map (fun x => (varEdge nIn prog x.1, x.2)) := by
+  unfold AS.elog
+  rw [finalState_vars]
+  simp only [progState_var]
+  rw [finalState_eq]
+
+theorem finalState_labs (nIn : Nat) (prog : List VarIns) (outs : List Nat) :
+    (finalState nIn prog outs).labs = (fullLog nIn prog outs).map (fun x => (varLabels nIn prog).getD x.1 0) := by
+  unfold AS.labs
+  rw [finalState_vars]
+  simp only [progState_var]
+  rw [finalState_eq]
+
+/-! ## well-scoped programs -/
+
+/-- every argument of instruction `j` names a variable that exists when the instruction runs (an
+    input or a result of an EARLIER instruction), and every output names an existing variable -/
+def WellScoped (nIn : Nat) (prog : List VarIns) (outs : List Nat) : Prop :=
+  (∀ j (h : j < prog.length), ∀ a ∈ insArgs prog[j], a < numVars nIn (prog.take j)) ∧
+  ∀ o ∈ outs, o < numVars nIn prog
+
+instance (nIn : Nat) (prog : List VarIns) (outs : List Nat) : Decidable (WellScoped nIn prog outs) := by
+  unfold WellScoped; infer_instance
+
+def wellScopedB (nIn : Nat) (prog : List VarIns) (outs : List Nat) : Bool :=
+  scopedFrom nIn prog && outs.all (· < numVars nIn prog)
+
+theorem scopedFrom_iff (nv : Nat) (prog : List VarIns) :
+    scopedFrom nv prog = true ↔
+      ∀ j (h : j < prog.length), ∀ a ∈ insArgs prog[j], a < nv + numRes (prog.take j) := by
+  induction prog generalizing nv with
+  | nil => simp [scopedFrom]
+  | cons ins rest ih =>
+    simp only [scopedFrom, Bool.and_eq_true, List.all_eq_true, decide_eq_true_eq, ih]
+    constructor
+    · rintro ⟨h0, h1⟩ j hj a ha
+      cases j with
+      | zero => simpa [numRes] using h0 a ha
+      | succ j =>
+        have := h1 j (by simpa using hj) a (by simpa using ha)
+        simp only [List.take_succ_cons, numRes_cons]; omega
+    · intro h
+      refine ⟨fun a ha => ?_, fun j hj a ha => ?_⟩
+      · simpa [numRes] using h 0 (by simp) a (by simpa using ha)
+      · have := h (j + 1) (by simpa using hj) a (by simpa using ha)
+        simp only [List.take_succ_cons, numRes_cons] at this; omega
+
+theorem wellScoped_iff (nIn : Nat) (prog : List VarIns) (outs : List Nat) :
+    WellScoped nIn prog outs ↔ wellScopedB nIn prog outs = true := by
+  unfold WellScoped wellScopedB
+  rw [Bool.and_eq_true, scopedFrom_iff, List.all_eq_true]
+  constructor
+  · rintro ⟨h1, h2⟩
+    exact ⟨h1, fun x hx => decide_eq_true (h2 x hx)⟩
+  · rintro ⟨h1, h2⟩
+    exact ⟨h1, fun x hx => of_decide_eq_true (h2 x hx)⟩
+
+theorem concF_wf (st : AS) (h : Good st) (s t : List Nat) (hs : ∀ v ∈ s, v < st.log.length)
+    (ht : ∀ v ∈ t, v < st.log.length) : (concF st s t).wf = true := by
+  have hN : (concF st s t).hypergraph.nodes.length = st.log.length := by simp [concF, concH, AS.labs]
+  rw [owf_iff]
+  refine ⟨⟨?_, ?_, rfl, ?_, ?_⟩, ?_, ?_⟩
+  · simp [concF, concH]
+  · intro e he
+    rw [hN]
+    obtain ⟨i, hi⟩ := List.mem_iff_getElem?.1 he
+    have hi' : (concH st.kinds st.elog st.labs).adjacency[i]? = some e := hi
+    rw [concH_adj_getElem?] at hi'
+    cases hk : st.kinds[i]? with
+    | none => rw [hk] at hi'; cases hi'
+    | some k =>
+      rw [hk] at hi'
+      simp only [Option.map_some, Option.some.injEq] at hi'
+      obtain ⟨l, o⟩ := k
+      cases o with
+      | some ed =>
+        have : e = ed := hi'.symm
+        rw [this]
+        exact h.opOK l ed (List.mem_of_getElem? hk)
+      | none =>
+        have : e = ⟨pos st.elog i true, pos st.elog i false⟩ := hi'.symm
+        rw [this]
+        have hl : st.elog.length = st.log.length := by simp [AS.elog]
+        constructor
+        · intro v hv; rw [← hl]; exact pos_lt _ _ _ v hv
+        · intro v hv; rw [← hl]; exact pos_lt _ _ _ v hv
+  · intro v hv; cases hv
+  · intro v hv; cases hv
+  · intro v hv; rw [hN]; exact hs v hv
+  · intro v hv; rw [hN]; exact ht v hv
+
+/-- **the builder never panics on a well-scoped program** (and returns `builtTerm`, a well-formed
+    lax open hypergraph) -/
+theorem build_eq (nIn : Nat) (prog : List VarIns) (outs : List Nat) (h : WellScoped nIn prog outs) :
+    varBuildProg nIn prog outs = .ok (builtTerm nIn prog outs) ∧ Good (finalState nIn prog outs) ∧
+    (builtTerm nIn prog outs).wf = true := by
+  have hb := (wellScoped_iff nIn prog outs).1 h
+  simp only [wellScopedB, Bool.and_eq_true, List.all_eq_true, decide_eq_true_eq] at hb
+  have ho : ∀ o ∈ outs, o < (progState nIn prog).vars.length := by
+    rw [progState_vars_length]; exact hb.2
+  obtain ⟨h1, h2⟩ := build_sym nIn prog outs hb.1 ho
+  refine ⟨h1, h2, ?_⟩
+  have hlen : (finalState nIn prog outs).log.length = progNodes nIn prog + nIn + outs.length := by
+    simp [finalState, AS.attach, progNodes]; omega
+  apply concF_wf _ h2
+  · intro v hv
+    have := List.mem_range'_1.1 hv
+    omega
+  · intro v hv
+    have := List.mem_range'_1.1 hv
+    omega
+
+theorem build_ok (nIn : Nat) (prog : List VarIns) (outs : List Nat) (h : WellScoped nIn prog outs) :
+    ∃ t, varBuildProg nIn prog outs = .ok t ∧ t.wf = true :=
+  ⟨_, (build_eq nIn prog outs h).1, (build_eq nIn prog outs h).2.2⟩
+
+example : WellScoped 2 [.op 7 [0, 1] [5], .op 8 [2, 2] [6, 6]] [3, 0] := by decide
+example : wellScopedB 2 [.op 7 [0, 1] [5], .op 8 [2, 2] [6, 6]] [3, 0] = true := by decide
+example : ¬ WellScoped 2 [.op 7 [0, 2] [5]] [] := by decide
+example : varBuildProg 2 [.op 7 [0, 1] [5], .op 8 [2, 2] [6, 6]] [3, 0] =
+    .ok ⟨[7, 8], [9, 10],
+      ⟨[0, 0, 5, 5, 5, 6, 6, 0, 0, 6, 0], [99, 99, 99, 7, 99, 99, 8],
+       [⟨[7], [0, 10]⟩, ⟨[8], [1]⟩, ⟨[2], [3, 4]⟩, ⟨[0, 1], [2]⟩, ⟨[5], [9]⟩, ⟨[6], []⟩, ⟨[3, 4], [5, 6]⟩],
+       ([], [])⟩⟩ := by decide
+
+/-! ## the shape of the built term -/
+
+section shape
+variable (nIn : Nat) (prog : List VarIns) (outs : List Nat)
+
+theorem progKinds_labels (nb : Nat) (prog : List VarIns) :
+    (progKinds nb prog).map (·.1) =
+      prog.flatMap (fun ins => List.replicate (insRts ins).length 99 ++ [insLabel ins]) := by
+  induction prog generalizing nb with
+  | nil => rfl
+  | cons ins rest ih => simp [progKinds, ih]
+
+/-- (edges) one edge labelled 99 per variable and one edge per applied operator, interleaved in
+    creation order -/
+theorem built_edges : (builtTerm nIn prog outs).hypergraph.edges = edgeLabels nIn prog := by
+  simp [builtTerm, concF, concH, finalState_eq, edgeLabels, progKinds_labels]
+
+theorem built_edges_length :
+    (builtTerm nIn prog outs).hypergraph.edges.length = numVars nIn prog + prog.length := by
+  simp only [builtTerm, concF, concH, finalState_eq, List.length_map, List.length_append,
+    List.length_replicate, progKinds_length, numVars]
+  have : ∀ p : List VarIns, numProgEdges p = numRes p + p.length := by
+    intro p
+    induction p with
+    | nil => rfl
+    | cons i p ih => rw [numProgEdges_cons, numRes_cons, ih, List.length_cons]; omega
+  rw [this]; omega
+
+/-- (nodes) one node per use and per definition, labelled like its variable -/
+theorem built_nodes :
+    (builtTerm nIn prog outs).hypergraph.nodes =
+      (nodeVars nIn prog outs).map (fun k => (varLabels nIn prog).getD k 0) := by
+  show (finalState nIn prog outs).labs = _
+  rw [finalState_labs, nodeVars, List.map_map]
+  rfl
+
+theorem fullLog_length : (fullLog nIn prog outs).length = numProgNodes prog + nIn + outs.length := by
+  simp [fullLog, progLog_length]; omega
+
+/-- number of nodes = number of uses + number of definitions -/
+theorem built_nodes_length :
+    (builtTerm nIn prog outs).hypergraph.nodes.length = numProgNodes prog + nIn + outs.length := by
+  rw [built_nodes, List.length_map, nodeVars, List.length_map, fullLog_length]
+
+/-- (interfaces) the declared inputs and outputs in order: the last `nIn + |outs|` nodes -/
+theorem built_sources : (builtTerm nIn prog outs).sources = List.range' (numProgNodes prog) nIn := by
+  simp [builtTerm, concF, progNodes_eq]
+
+theorem built_targets :
+    (builtTerm nIn prog outs).targets = List.range' (numProgNodes prog + nIn) outs.length := by
+  simp [builtTerm, concF, progNodes_eq]
+
+theorem built_quotient : (builtTerm nIn prog outs).hypergraph.quotient = ([], []) := rfl
+
+/-- the `k`-th source node is attached, on the SOURCE side, to input variable `k` -/
+theorem fullLog_source (k : Nat) (hk : k < nIn) :
+    (fullLog nIn prog outs)[numProgNodes prog + k]? = some (k, true) := by
+  unfold fullLog
+  rw [List.append_assoc, List.getElem?_append_right (by rw [progLog_length]; omega), progLog_length,
+    Nat.add_sub_cancel_left, List.getElem?_append_left (by simpa using hk)]
+  simp [hk]
+
+/-- the `i`-th target node is attached, on the TARGET side, to variable `outs[i]` -/
+theorem fullLog_target (i : Nat) (hi : i < outs.length) :
+    (fullLog nIn prog outs)[numProgNodes prog + nIn + i]? = some (outs[i], false) := by
+  unfold fullLog
+  rw [List.getElem?_append_right (by simp [progLog_length])]
+  simp [progLog_length, hi]
+
+/-! ### variable edges -/
+
+theorem progVarEdges_props (eb : Nat) (prog : List VarIns) :
+    (progVarEdges eb prog).Pairwise (· < ·) ∧ ∀ e ∈ progVarEdges eb prog, eb ≤ e := by
+  induction prog generalizing eb with
+  | nil => simp [progVarEdges]
+  | cons ins rest ih =>
+    obtain ⟨h1, h2⟩ := ih (eb + (insRts ins).length + 1)
+    simp only [progVarEdges]
+    refine ⟨?_, ?_⟩
+    · rw [List.pairwise_append]
+      refine ⟨List.pairwise_lt_range', h1, ?_⟩
+      intro a ha b hb
+      have := List.mem_range'_1.1 ha
+      have := h2 b hb
+      omega
+    · intro e he
+      rcases List.mem_append.1 he with he | he
+      · exact (List.mem_range'_1.1 he).1
+      · have := h2 e he; omega
+
+/-- variable edge ids are strictly increasing in the variable index -/
+theorem varEdges_pairwise : (varEdges nIn prog).Pairwise (· < ·) := by
+  unfold varEdges
+  rw [List.pairwise_append]
+  refine ⟨List.pairwise_lt_range, (progVarEdges_props nIn prog).1, ?_⟩
+  intro a ha b hb
+  have := List.mem_range.1 ha
+  have := (progVarEdges_props nIn prog).2 b hb
+  omega
+
+theorem varEdges_nodup : (varEdges nIn prog).Nodup :=
+  (varEdges_pairwise nIn prog).imp (fun h => Nat.ne_of_lt h)
+
+/-- distinct variables have distinct edges -/
+theorem varEdge_inj {k k' : Nat} (hk : k < numVars nIn prog) (hk' : k' < numVars nIn prog)
+    (h : varEdge nIn prog k = varEdge nIn prog k') : k = k' := by
+  have h1 : k < (varEdges nIn prog).length := by rw [varEdges_length]; exact hk
+  have h2 : k' < (varEdges nIn prog).length := by rw [varEdges_length]; exact hk'
+  apply (List.getElem?_inj h1 (varEdges_nodup nIn prog)).1
+  unfold varEdge at h
+  rw [List.getD_eq_getElem?_getD, List.getD_eq_getElem?_getD, List.getElem?_eq_getElem h1,
+    List.getElem?_eq_getElem h2] at h
+  rw [List.getElem?_eq_getElem h1, List.getElem?_eq_getElem h2]
+  simpa using h
+
+theorem pos_map_inj (log : List (Nat × Bool)) (f : Nat → Nat) (k : Nat) (b : Bool)
+    (hinj : ∀ x ∈ log, f x.1 = f k → x.1 = k) :
+    pos (log.map (fun x => (f x.1, x.2))) (f k) b = pos log k b := by
+  unfold pos
+  rw [List.length_map]
+  apply List.filter_congr
+  intro n hn
+  rw [List.getElem?_map]
+  cases hx : log[n]? with
+  | none => simp
+  | some x =>
+    have hm := List.mem_of_getElem? hx
+    obtain ⟨x1, x2⟩ := x
+    simp only [Option.map_some, Option.some.injEq, Prod.mk.injEq, decide_eq_decide]
+    constructor
+    · rintro ⟨h1, h2⟩; exact ⟨hinj _ hm h1, h2⟩
+    · rintro ⟨h1, h2⟩; exact ⟨by rw [h1], h2⟩
+
+theorem mem_pos_iff (log : List (Nat × Bool)) (k : Nat) (b : Bool) (n : Nat) :
+    n ∈ pos log k b ↔ log[n]? = some (k, b) := by
+  unfold pos
+  simp only [List.mem_filter, List.mem_range, decide_eq_true_eq]
+  constructor
+  · exact fun h => h.2
+  · exact fun h => ⟨(List.getElem?_eq_some_iff.1 h).1, h⟩
+
+theorem pos_nodup (log : List (Nat × Bool)) (k : Nat) (b : Bool) : (pos log k b).Nodup :=
+  List.Nodup.sublist List.filter_sublist List.nodup_range
+
+theorem pos_pairwise (log : List (Nat × Bool)) (k : Nat) (b : Bool) : (pos log k b).Pairwise (· < ·) :=
+  List.Pairwise.sublist List.filter_sublist List.pairwise_lt_range
+
+/-- `pos` in terms of `nodeVars` / `nodeIsSrc` -/
+theorem pos_fullLog (k : Nat) (b : Bool) :
+    pos (fullLog nIn prog outs) k b =
+      (List.range (nodeVars nIn prog outs).length).filter (fun n =>
+        decide ((nodeVars nIn prog outs)[n]? = some k ∧ (nodeIsSrc nIn prog outs)[n]? = some b)) := by
+  unfold pos nodeVars nodeIsSrc
+  rw [List.length_map]
+  apply List.filter_congr
+  intro n _
+  simp only [List.getElem?_map]
+  cases (fullLog nIn prog outs)[n]? with
+  | none => simp
+  | some x => obtain ⟨x1, x2⟩ := x; simp
+
+theorem fullLog_inScope (h : WellScoped nIn prog outs) :
+    ∀ x ∈ fullLog nIn prog outs, x.1 < numVars nIn prog := by
+  have hg := (build_eq nIn prog outs h).2.1
+  intro x hx
+  have := hg.inScope x (by rw [finalState_eq]; exact hx)
+  rwa [finalState_vars, progState_vars_length] at this
+
+theorem nodeVars_inScope (h : WellScoped nIn prog outs) :
+    ∀ k ∈ nodeVars nIn prog outs, k < numVars nIn prog := by
+  intro k hk
+  obtain ⟨x, hx, rfl⟩ := List.mem_map.1 hk
+  exact fullLog_inScope nIn prog outs h x hx
+
+/-- the edge of variable `k` is labelled 99 -/
+theorem built_var_edge_label (h : WellScoped nIn prog outs) (k : Nat) (hk : k < numVars nIn prog) :
+    (builtTerm nIn prog outs).hypergraph.edges[varEdge nIn prog k]? = some 99 ∧
+    (finalState nIn prog outs).kinds[varEdge nIn prog k]? = some (99, none) := by
+  have hg := (build_eq nIn prog outs h).2.1
+  have hm : (progState nIn prog).vars.getD k dflt ∈ (finalState nIn prog outs).vars := by
+    rw [finalState_vars, List.getD_eq_getElem?_getD,
+      List.getElem?_eq_getElem (by rw [progState_vars_length]; exact hk)]
+    simp
+  have h1 := hg.isVar _ hm
+  rw [progState_var] at h1
+  refine ⟨?_, h1⟩
+  simp only [builtTerm, concF, concH, List.getElem?_map]
+  simp only at h1
+  rw [h1]; rfl
+
+/-- (variable edges) the edge of variable `k` has as sources exactly the nodes attached to `k` on the
+    source side and as targets exactly the nodes attached to `k` on the target side, in increasing
+    order -/
+theorem built_var_adjacency (h : WellScoped nIn prog outs) (k : Nat) (hk : k < numVars nIn prog) :
+    (builtTerm nIn prog outs).hypergraph.adjacency[varEdge nIn prog k]? =
+      some ⟨pos (fullLog nIn prog outs) k true, pos (fullLog nIn prog outs) k false⟩ := by
+  have h1 := (built_var_edge_label nIn prog outs h k hk).2
+  show (concH _ _ _).adjacency[_]? = _
+  rw [concH_adj_getElem?, h1, finalState_elog]
+  have hinj : ∀ x ∈ fullLog nIn prog outs, varEdge nIn prog x.1 = varEdge nIn prog k → x.1 = k :=
+    fun x hx he => varEdge_inj nIn prog (fullLog_inScope nIn prog outs h x hx) hk he
+  simp only [Option.map_some, adjEntry]
+  rw [pos_map_inj _ (varEdge nIn prog) k true hinj, pos_map_inj _ (varEdge nIn prog) k false hinj]
+
+/-! ### operator edges -/
+
+theorem numProgNodes_append (a b : List VarIns) :
+    numProgNodes (a ++ b) = numProgNodes a + numProgNodes b := by simp [numProgNodes]
+theorem numProgEdges_append (a b : List VarIns) :
+    numProgEdges (a ++ b) = numProgEdges a + numProgEdges b := by simp [numProgEdges]
+theorem numRes_append (a b : List VarIns) : numRes (a ++ b) = numRes a + numRes b := by simp [numRes]
+
+theorem progKinds_append (nb : Nat) (a b : List VarIns) :
+    progKinds nb (a ++ b) = progKinds nb a ++ progKinds (nb + numProgNodes a) b := by
+  induction a generalizing nb with
+  | nil => simp [progKinds, numProgNodes]
+  | cons ins a ih =>
+    have e : nb + (insArgs ins).length + (insRts ins).length + numProgNodes a =
+        nb + ((insArgs ins).length + (insRts ins).length + numProgNodes a) := by omega
+    simp only [List.cons_append, progKinds, ih, numProgNodes_cons, List.append_assoc, e]
+
+theorem progLog_append (vb : Nat) (a b : List VarIns) :
+    progLog vb (a ++ b) = progLog vb a ++ progLog (vb + numRes a) b := by
+  induction a generalizing vb with
+  | nil => simp [progLog, numRes]
+  | cons ins a ih =>
+    have e : vb + (insRts ins).length + numRes a = vb + ((insRts ins).length + numRes a) := by omega
+    simp only [List.cons_append, progLog, ih, numRes_cons, List.append_assoc, e]
+
+theorem prog_split (j : Nat) (hj : j < prog.length) :
+    prog = prog.take j ++ prog[j] :: prog.drop (j + 1) := by
+  rw [List.getElem_cons_drop, List.take_append_drop]
+
+theorem opEdge_eq (j : Nat) (hj : j < prog.length) :
+    opEdge nIn prog j = nIn + numProgEdges (prog.take j) + (insRts prog[j]).length := by
+  simp [opEdge, List.getElem?_eq_getElem hj]
+
+theorem kinds_opEdge (j : Nat) (hj : j < prog.length) :
+    (List.replicate nIn ((99, none) : Kind) ++ progKinds 0 prog)[opEdge nIn prog j]? =
+      some (insLabel prog[j], some ⟨List.range' (nodeBase prog j) (insArgs prog[j]).length,
+        List.range' (nodeBase prog j + (insArgs prog[j]).length) (insRts prog[j]).length⟩) := by
+  rw [opEdge_eq nIn prog j hj]
+  conv => lhs; arg 1; arg 2; rw [prog_split prog j hj]
+  rw [progKinds_append]
+  simp only [progKinds, Nat.zero_add, nodeBase]
+  rw [List.getElem?_append_right (by simp; omega)]
+  rw [List.getElem?_append_right (by simp [progKinds_length]; omega)]
+  rw [List.append_assoc, List.getElem?_append_right (by simp [progKinds_length]; omega)]
+  simp [progKinds_length]
+  have : nIn + numProgEdges (List.take j prog) + (insRts prog[j]).length - nIn -
+      numProgEdges (List.take j prog) - (insRts prog[j]).length = 0 := by omega
+  rw [this]
+  rfl
+
+/-- (operator edges) instruction `j` owns exactly one edge, carrying its label; its sources are the
+    `|args_j|` nodes created for its argument uses and its targets the `|rts_j|` nodes created for
+    its results, in order -/
+theorem built_op_adjacency (j : Nat) (hj : j < prog.length) :
+    (builtTerm nIn prog outs).hypergraph.edges[opEdge nIn prog j]? = some (insLabel prog[j]) ∧
+    (builtTerm nIn prog outs).hypergraph.adjacency[opEdge nIn prog j]? =
+      some ⟨List.range' (nodeBase prog j) (insArgs prog[j]).length,
+            List.range' (nodeBase prog j + (insArgs prog[j]).length) (insRts prog[j]).length⟩ := by
+  have hk := kinds_opEdge nIn prog j hj
+  constructor
+  · simp only [builtTerm, concF, concH, finalState_eq, List.getElem?_map, hk]; rfl
+  · show (concH _ _ _).adjacency[_]? = _
+    rw [concH_adj_getElem?]
+    simp only [finalState_eq, hk]; rfl
+
+/-- the `i`-th source node of operator `j` is attached, on the TARGET side (a use), to the variable
+    `args_j[i]` -/
+theorem fullLog_arg (j : Nat) (hj : j < prog.length) (i : Nat) (hi : i < (insArgs prog[j]).length) :
+    (fullLog nIn prog outs)[nodeBase prog j + i]? = some ((insArgs prog[j])[i], false) := by
+  unfold fullLog nodeBase
+  rw [List.append_assoc]
+  conv => lhs; arg 1; arg 1; rw [prog_split prog j hj]
+  rw [progLog_append]
+  simp only [progLog, List.append_assoc]
+  rw [List.getElem?_append_right (by simp [progLog_length])]
+  rw [List.getElem?_append_left (by simp [progLog_length]; exact hi)]
+  simp [progLog_length, hi]
+
+/-- the `r`-th target node of operator `j` is attached, on the SOURCE side (the definition), to the
+    `r`-th result variable of instruction `j` -/
+theorem fullLog_res (j : Nat) (hj : j < prog.length) (r : Nat) (hr : r < (insRts prog[j]).length) :
+    (fullLog nIn prog outs)[nodeBase prog j + (insArgs prog[j]).length + r]? =
+      some (varBase nIn prog j + r, true) := by
+  unfold fullLog nodeBase varBase numVars
+  rw [List.append_assoc]
+  conv => lhs; arg 1; arg 1; rw [prog_split prog j hj]
+  rw [progLog_append]
+  simp only [progLog, List.append_assoc]
+  rw [List.getElem?_append_right (by simp [progLog_length]; omega)]
+  rw [List.getElem?_append_right (by simp [progLog_length]; omega)]
+  rw [List.getElem?_append_left (by simp [progLog_length]; omega)]
+  simp only [progLog_length, List.length_map, List.getElem?_map]
+  have : numProgNodes (List.take j prog) + (insArgs prog[j]).length + r - numProgNodes (List.take j prog) -
+      (insArgs prog[j]).length = r := by omega
+  rw [this, List.getElem?_range' hr]
+  simp
+
+/-! ### every edge is a variable edge or an operator edge -/
+
+theorem edge_cover_aux (eb : Nat) (prog : List VarIns) (e : Nat) (h1 : eb ≤ e)
+    (h2 : e < eb + numProgEdges prog) :
+    e ∈ progVarEdges eb prog ∨
+      ∃ j, ∃ hj : j < prog.length, e = eb + numProgEdges (prog.take j) + (insRts prog[j]).length := by
+  induction prog generalizing eb with
+  | nil => simp [numProgEdges] at h2; omega
+  | cons ins rest ih =>
+    rw [numProgEdges_cons] at h2
+    by_cases hlt : e < eb + (insRts ins).length
+    · left
+      simp only [progVarEdges, List.mem_append]
+      left
+      exact List.mem_range'_1.2 ⟨h1, hlt⟩
+    · by_cases heq : e = eb + (insRts ins).length
+      · right
+        exact ⟨0, by simp, by simp [numProgEdges, heq]⟩
+      · rcases ih (eb + (insRts ins).length + 1) (by omega) (by omega) with hm | ⟨j, hj, hjeq⟩
+        · left
+          simp only [progVarEdges, List.mem_append]
+          exact Or.inr hm
+        · right
+          refine ⟨j + 1, by simpa using hj, ?_⟩
+          simp only [List.take_succ_cons, numProgEdges_cons, List.getElem_cons_succ]
+          omega
+
+/-- every edge of the built term is the edge of a variable or the edge of an instruction -/
+theorem edge_cover (e : Nat) (he : e < (builtTerm nIn prog outs).hypergraph.edges.length) :
+    (∃ k, k < numVars nIn prog ∧ varEdge nIn prog k = e) ∨
+    (∃ j, j < prog.length ∧ opEdge nIn prog j = e) := by
+  have hlen : (builtTerm nIn prog outs).hypergraph.edges.length = nIn + numProgEdges prog := by
+    simp [builtTerm, concF, concH, finalState_eq, progKinds_length]
+  rw [hlen] at he
+  have key : e ∈ varEdges nIn prog ∨ ∃ j, j < prog.length ∧ opEdge nIn prog j = e := by
+    by_cases h0 : e < nIn
+    · left; unfold varEdges; exact List.mem_append_left _ (List.mem_range.2 h0)
+    · rcases edge_cover_aux nIn prog e (by omega) he with hm | ⟨j, hj, hjeq⟩
+      · left; unfold varEdges; exact List.mem_append_right _ hm
+      · right; exact ⟨j, hj, by rw [opEdge_eq nIn prog j hj, hjeq]⟩
+  rcases key with hm | hop
+  · left
+    obtain ⟨k, hk, hke⟩ := List.getElem_of_mem hm
+    refine ⟨k, by rwa [varEdges_length] at hk, ?_⟩
+    unfold varEdge
+    rw [List.getD_eq_getElem?_getD, List.getElem?_eq_getElem hk]
+    simpa using hke
+  · exact Or.inr hop
+
+/-- a variable edge is never the edge of an instruction (even when the instruction is labelled 99) -/
+theorem varEdge_ne_opEdge (h : WellScoped nIn prog outs) (k : Nat) (hk : k < numVars nIn prog)
+    (j : Nat) (hj : j < prog.length) : varEdge nIn prog k ≠ opEdge nIn prog j := by
+  intro he
+  have h1 := (built_var_edge_label nIn prog outs h k hk).2
+  have h2 := kinds_opEdge nIn prog j hj
+  rw [finalState_eq, he] at h1
+  simp only at h1
+  rw [h2] at h1
+  injection h1 with h1
+  injection h1 with _ h1
+  cases h1
+
+theorem numProgEdges_take_mono (prog : List VarIns) {j j' : Nat} (h : j ≤ j') :
+    numProgEdges (prog.take j) ≤ numProgEdges (prog.take j') := by
+  induction prog generalizing j j' with
+  | nil => simp
+  | cons ins rest ih =>
+    cases j with
+    | zero => simp [numProgEdges]
+    | succ j =>
+      cases j' with
+      | zero => omega
+      | succ j' =>
+        simp only [List.take_succ_cons, numProgEdges_cons]
+        have := ih (j := j) (j' := j') (by omega)
+        omega
+
+theorem numProgNodes_take_mono (prog : List VarIns) {j j' : Nat} (h : j ≤ j') :
+    numProgNodes (prog.take j) ≤ numProgNodes (prog.take j') := by
+  induction prog generalizing j j' with
+  | nil => simp
+  | cons ins rest ih =>
+    cases j with
+    | zero => simp [numProgNodes]
+    | succ j =>
+      cases j' with
+      | zero => omega
+      | succ j' =>
+        simp only [List.take_succ_cons, numProgNodes_cons]
+        have := ih (j := j) (j' := j') (by omega)
+        omega
+
+theorem take_succ_eq (prog : List VarIns) (j : Nat) (hj : j < prog.length) :
+    prog.take (j + 1) = prog.take j ++ [prog[j]] := by
+  induction prog generalizing j with
+  | nil => simp at hj
+  | cons ins rest ih =>
+    cases j with
+    | zero => simp
+    | succ j =>
+      rw [List.take_succ_cons, ih j (by simpa using hj), List.take_succ_cons, List.getElem_cons_succ]
+      rfl
+
+theorem nodeBase_succ (j : Nat) (hj : j < prog.length) :
+    nodeBase prog (j + 1) = nodeBase prog j + (insArgs prog[j]).length + (insRts prog[j]).length := by
+  unfold nodeBase
+  rw [take_succ_eq prog j hj, numProgNodes_append]
+  simp [numProgNodes]; omega
+
+/-- distinct instructions have distinct edges -/
+theorem opEdge_inj {j j' : Nat} (hj : j < prog.length) (hj' : j' < prog.length)
+    (h : opEdge nIn prog j = opEdge nIn prog j') : j = j' := by
+  have key : ∀ a b, a < b → (hb : b < prog.length) → opEdge nIn prog a < opEdge nIn prog b := by
+    intro a b hab hb
+    have ha : a < prog.length := by omega
+    rw [opEdge_eq nIn prog a ha, opEdge_eq nIn prog b hb]
+    have h1 := numProgEdges_take_mono prog (j := a + 1) (j' := b) hab
+    have hs : numProgEdges [prog[a]] = (insRts prog[a]).length + 1 := by simp [numProgEdges]
+    rw [take_succ_eq prog a ha, numProgEdges_append, hs] at h1
+    omega
+  rcases Nat.lt_trichotomy j j' with hlt | heq | hgt
+  · have := key j j' hlt hj'; omega
+  · exact heq
+  · have := key j' j hgt hj; omega
+
+/-! ### corollaries -/
+
+theorem count_pos (log : List (Nat × Bool)) (k : Nat) (b : Bool) (n : Nat) :
+    (pos log k b).count n = if log[n]? = some (k, b) then 1 else 0 := by
+  rw [(pos_nodup log k b).count]
+  simp only [mem_pos_iff]
+
+/-- every node is incident to exactly one variable edge, on exactly one side, exactly once: node `n`
+    occurs once in the side `nodeIsSrc[n]` of the edge of `nodeVars[n]` and nowhere else in any
+    variable edge -/
+theorem node_unique_var_edge (h : WellScoped nIn prog outs) (n : Nat)
+    (hn : n < (builtTerm nIn prog outs).hypergraph.nodes.length) :
+    ∃ k b, k < numVars nIn prog ∧ (nodeVars nIn prog outs)[n]? = some k ∧
+      (nodeIsSrc nIn prog outs)[n]? = some b ∧
+      ∀ k', k' < numVars nIn prog → ∀ ed,
+        (builtTerm nIn prog outs).hypergraph.adjacency[varEdge nIn prog k']? = some ed →
+        ed.sources.count n = (if k' = k ∧ b = true then 1 else 0) ∧
+        ed.targets.count n = (if k' = k ∧ b = false then 1 else 0) := by
+  rw [built_nodes_length, ← fullLog_length nIn prog outs] at hn
+  have hx : (fullLog nIn prog outs)[n]? = some (fullLog nIn prog outs)[n] := List.getElem?_eq_getElem hn
+  rcases hxx : (fullLog nIn prog outs)[n] with ⟨k, b⟩
+  rw [hxx] at hx
+  have hk : k < numVars nIn prog := fullLog_inScope nIn prog outs h (k, b) (List.mem_of_getElem? hx)
+  refine ⟨k, b, hk, by simp [nodeVars, hx], by simp [nodeIsSrc, hx], ?_⟩
+  intro k' hk' ed hed
+  rw [built_var_adjacency nIn prog outs h k' hk'] at hed
+  cases hed
+  simp only [count_pos, hx, Option.some.injEq, Prod.mk.injEq]
+  constructor
+  · congr 1; apply propext; constructor
+    · rintro ⟨rfl, rfl⟩; exact ⟨rfl, rfl⟩
+    · rintro ⟨rfl, rfl⟩; exact ⟨rfl, rfl⟩
+  · congr 1; apply propext; constructor
+    · rintro ⟨rfl, rfl⟩; exact ⟨rfl, rfl⟩
+    · rintro ⟨rfl, rfl⟩; exact ⟨rfl, rfl⟩
+
+/-- the nodes of operator edge `j` are the interval `[nodeBase j, nodeBase (j+1))`, each once -/
+theorem op_edge_nodes (j : Nat) (hj : j < prog.length) (ed : LEdge)
+    (hed : (builtTerm nIn prog outs).hypergraph.adjacency[opEdge nIn prog j]? = some ed) :
+    ed.sources ++ ed.targets =
+      List.range' (nodeBase prog j) ((insArgs prog[j]).length + (insRts prog[j]).length) := by
+  rw [(built_op_adjacency nIn prog outs j hj).2] at hed
+  cases hed
+  simp only
+  rw [List.range'_append_1]
+
+/-- every node is incident to at most one operator edge, at most once; the interface nodes are
+    incident to none -/
+theorem node_atmost_one_op (n : Nat) (j : Nat) (hj : j < prog.length) (ed : LEdge)
+    (hed : (builtTerm nIn prog outs).hypergraph.adjacency[opEdge nIn prog j]? = some ed)
+    (hn : n ∈ ed.sources ++ ed.targets) :
+    (ed.sources ++ ed.targets).count n = 1 ∧ n < numProgNodes prog ∧
+    ∀ j', j' < prog.length → ∀ ed',
+      (builtTerm nIn prog outs).hypergraph.adjacency[opEdge nIn prog j']? = some ed' →
+      n ∈ ed'.sources ++ ed'.targets → j' = j := by
+  have h1 := op_edge_nodes nIn prog outs j hj ed hed
+  have hn1 := hn
+  rw [h1] at hn1
+  have hr := List.mem_range'_1.1 hn1
+  have hs := nodeBase_succ prog j hj
+  have hP : nodeBase prog (j + 1) ≤ numProgNodes prog := by
+    have := numProgNodes_take_mono prog (j := j + 1) (j' := prog.length) hj
+    simpa [nodeBase] using this
+  refine ⟨?_, by omega, ?_⟩
+  · have hnd : (ed.sources ++ ed.targets).Nodup := by rw [h1]; exact List.nodup_range'
+    rw [hnd.count, if_pos hn]
+  · intro j' hj' ed' hed' hn'
+    rw [op_edge_nodes nIn prog outs j' hj' ed' hed'] at hn'
+    have hr' := List.mem_range'_1.1 hn'
+    have hs' := nodeBase_succ prog j' hj'
+    rcases Nat.lt_trichotomy j' j with hlt | heq | hgt
+    · have := numProgNodes_take_mono prog (j := j' + 1) (j' := j) hlt
+      unfold nodeBase at *; omega
+    · exact heq
+    · have := numProgNodes_take_mono prog (j := j + 1) (j' := j') hgt
+      unfold nodeBase at *; omega
+
+/-- all nodes incident to the edge of variable `k` carry the label of `k` -/
+theorem var_edge_uniform (h : WellScoped nIn prog outs) (k : Nat) (hk : k < numVars nIn prog)
+    (ed : LEdge) (hed : (builtTerm nIn prog outs).hypergraph.adjacency[varEdge nIn prog k]? = some ed) :
+    ∀ n ∈ ed.sources ++ ed.targets,
+      (builtTerm nIn prog outs).hypergraph.nodes[n]? = some ((varLabels nIn prog).getD k 0) := by
+  rw [built_var_adjacency nIn prog outs h k hk] at hed
+  cases hed
+  intro n hn
+  have : ∃ b, (fullLog nIn prog outs)[n]? = some (k, b) := by
+    rcases List.mem_append.1 hn with hn | hn
+    · exact ⟨true, (mem_pos_iff _ _ _ _).1 hn⟩
+    · exact ⟨false, (mem_pos_iff _ _ _ _).1 hn⟩
+  obtain ⟨b, hb⟩ := this
+  rw [built_nodes, nodeVars, List.map_map, List.getElem?_map, hb]
+  rfl
+
+/-! ### every variable has exactly one definition -/
+
+theorem progLog_srcVars (vb : Nat) (prog : List VarIns) :
+    ((progLog vb prog).filter (·.2)).map (·.1) = List.range' vb (numRes prog) := by
+  induction prog generalizing vb with
+  | nil => rfl
+  | cons ins rest ih =>
+    have h1 : ((insArgs ins).map (fun k => (k, false))).filter (·.2) = [] := by
+      rw [List.filter_eq_nil_iff]; intro x hx
+      obtain ⟨k, _, rfl⟩ := List.mem_map.1 hx; simp
+    have h2 : ((List.range' vb (insRts ins).length).map (fun k => (k, true))).filter (·.2) =
+        (List.range' vb (insRts ins).length).map (fun k => (k, true)) := by
+      rw [List.filter_eq_self]; intro x hx
+      obtain ⟨k, _, rfl⟩ := List.mem_map.1 hx; rfl
+    simp only [progLog, List.filter_append, h1, h2, List.nil_append, List.map_append, List.map_map, ih,
+      numRes_cons]
+    rw [← List.range'_append_1]
+    congr 1
+    exact List.map_id' _
+
+/-- the source-side nodes, in creation order, are attached to: every result variable, then every
+    input variable — each variable exactly once -/
+theorem fullLog_srcVars :
+    ((fullLog nIn prog outs).filter (·.2)).map (·.1) = List.range' nIn (numRes prog) ++ List.range nIn := by
+  have h1 : (outs.map (fun k => (k, false))).filter (·.2) = [] := by
+    rw [List.filter_eq_nil_iff]; intro x hx
+    obtain ⟨k, _, rfl⟩ := List.mem_map.1 hx; simp
+  have h2 : ((List.range nIn).map (fun k => (k, true))).filter (·.2) =
+      (List.range nIn).map (fun k => (k, true)) := by
+    rw [List.filter_eq_self]; intro x hx
+    obtain ⟨k, _, rfl⟩ := List.mem_map.1 hx; rfl
+  simp only [fullLog, List.filter_append, h1, h2, List.append_nil, List.map_append, progLog_srcVars,
+    List.map_map]
+  congr 1
+  exact List.map_id' _
+
+theorem count_src (log : List (Nat × Bool)) (k : Nat) :
+    log.count (k, true) = ((log.filter (·.2)).map (·.1)).count k := by
+  induction log with
+  | nil => rfl
+  | cons x log ih =>
+    obtain ⟨x1, x2⟩ := x
+    cases x2 with
+    | false => simp [ih]
+    | true => simp [List.count_cons, ih]
+
+theorem pos_length (log : List (Nat × Bool)) (k : Nat) (b : Bool) :
+    (pos log k b).length = log.count (k, b) := by
+  have key : ∀ n (log : List (Nat × Bool)), log.length = n → (pos log k b).length = log.count (k, b) := by
+    intro n
+    induction n with
+    | zero =>
+      intro log hl
+      have : log = [] := List.eq_nil_of_length_eq_zero hl
+      subst this; rfl
+    | succ n ih =>
+      intro log hl
+      rcases List.eq_nil_or_concat log with h0 | ⟨log', x, rfl⟩
+      · subst h0; simp at hl
+      · rw [List.concat_eq_append] at hl ⊢
+        have hl' : log'.length = n := by simpa using hl
+        rw [pos_snoc, List.length_append, ih log' hl', List.count_append]
+        by_cases hx : x = (k, b)
+        · simp [hx]
+        · simp [hx]
+  exact key _ log rfl
+
+/-- **every variable edge has exactly one source node** (the value produced for the variable: the
+    result node of the defining operator, or the interface node of an input) -/
+theorem var_edge_one_source (k : Nat) (hk : k < numVars nIn prog) :
+    (pos (fullLog nIn prog outs) k true).length = 1 := by
+  rw [pos_length, count_src, fullLog_srcVars]
+  have hnd : (List.range' nIn (numRes prog) ++ List.range nIn).Nodup := by
+    rw [List.nodup_append]
+    refine ⟨List.nodup_range', List.nodup_range, ?_⟩
+    intro a ha b hb
+    have := List.mem_range'_1.1 ha
+    have := List.mem_range.1 hb
+    omega
+  rw [hnd.count, if_pos]
+  rw [List.mem_append, List.mem_range'_1, List.mem_range]
+  unfold numVars at hk
+  omega
+
+end shape
+
 end OH.C19
